@@ -48,14 +48,6 @@ enum DefaultFallback {
 }
 
 fn can_default(f: &Field) -> DefaultFallback {
-    if let Type::Path(x) = ungroup(&f.ty) {
-        for segment in x.path.segments.iter() {
-            if segment.ident == Ident::new("Option", segment.ident.span()) {
-                return DefaultFallback::Yes;
-            }
-        }
-    }
-
     let defattr = f
         .attrs
         .iter()
@@ -72,8 +64,8 @@ fn can_default(f: &Field) -> DefaultFallback {
         })
         .find(|m| m.path().is_ident("default"));
 
-    defattr
-        .map(|meta| match meta {
+    if let Some(meta) = defattr {
+        return match meta {
             Meta::NameValue(mnv) => {
                 if let Lit::Str(lit) = mnv.lit {
                     DefaultFallback::Path(lit.parse().unwrap())
@@ -82,8 +74,18 @@ fn can_default(f: &Field) -> DefaultFallback {
                 }
             }
             _ => DefaultFallback::Yes,
-        })
-        .unwrap_or(DefaultFallback::No)
+        };
+    }
+
+    if let Type::Path(x) = ungroup(&f.ty) {
+        for segment in x.path.segments.iter() {
+            if segment.ident == Ident::new("Option", segment.ident.span()) {
+                return DefaultFallback::Yes;
+            }
+        }
+    }
+
+    DefaultFallback::No
 }
 
 fn can_deserialize_with(f: &Field) -> Option<Ident> {
